@@ -290,6 +290,10 @@ def check_C11(run):
 
 def check_C12(run):
     run.model("Concurrency", "Concurrency" if run.thorough() else "Concurrency_quick", timeout=3000)
+    run.model("RWLockBuild")
+    v = V.run_tlc(run.scratch, "RWLockBuild", "RWLockBuild_defect", workers=4, timeout=600)
+    if "Deadlock reached" not in v["out"]:
+        raise V.Infra("vacuity check failed: the RWLockBuild model does not deadlock when the read lock is held across the recursive build")
     race = run.harness(race=True)
     out, meta = run.drive("C12", extra_env={"VERIF_RACE_BIN": race})
     total, rejected, states, _ = V.judge(run.scratch, "Trace_Conc", out)
